@@ -88,8 +88,10 @@ def sid(s):
 def ctree(t):
     """harness tree (case side or implementation side) -> Gallina arg; None if unrepresentable"""
     k = t[0]
-    if k in ('K', 'F'):
-        return '(Scalar (K %s))' % cz(t[1])
+    if k in ('K', 'F', 'B'):
+        return '(Scalar (K %s))' % cz(t[1])       # by value (bools and floats behave as their value everywhere in scope)
+    if k == 'Z':
+        return '(Scalar (K 0%Z))'                 # -0.0
     if k == 'U':
         if t[1] < 0:
             return None
@@ -98,7 +100,7 @@ def ctree(t):
         return '(Scalar (Str %s))' % sid(t[1])
     if k == 'N':
         return '(Scalar (Str 0%Z))'
-    if k in ('T', 'L', 'C'):
+    if k in ('T', 'L', 'C', 'M'):
         xs = [ctree(x) for x in t[1]]
         if any(x is None for x in xs):
             return None
@@ -135,6 +137,7 @@ def prelude_units(pre):
 class Gen:
     def __init__(self, rng):
         self.rng = rng
+        self.mylist = False
 
     def prelude(self, need_unit=False):
         n = self.rng.choice([0, 1, 2, 2, 3]) if not need_unit else self.rng.choice([1, 2, 2, 3])
@@ -152,7 +155,12 @@ class Gen:
         if strs and r > 0.93:
             return self.rng.choice([['S', 'x'], ['S', 'label'], ['N']])
         v = self.rng.choice(consts)
-        return ['F', v] if self.rng.random() < 0.25 else ['K', v]
+        r2 = self.rng.random()
+        if v in (0, 1) and r2 < 0.15:
+            return ['B', v]                       # False / True
+        if v == 0 and r2 < 0.3:
+            return ['Z']                          # -0.0
+        return ['F', v] if r2 < 0.5 else ['K', v]
 
     def tree(self, pre, depth, consts, empty=0.0, tuples=0.12, strs=False, p_list=0.5, cl=0.3, p_unit=0.35):
         r = self.rng.random()
@@ -162,17 +170,18 @@ class Gen:
             n = self.rng.choice([1, 2, 2, 3] + ([0] if empty else []))
             return ['T', [self.tree(pre, depth - 1, consts, empty, tuples, strs, 0.3, cl, p_unit) for _ in range(n)]]
         n = 0 if self.rng.random() < empty else self.rng.choice([1, 1, 2, 2, 2, 3, 3, 4])
-        tag = 'C' if self.rng.random() < cl else 'L'
+        r3 = self.rng.random()
+        tag = 'C' if r3 < cl else 'M' if (self.mylist and r3 > 0.93) else 'L'
         return [tag, [self.tree(pre, depth - 1, consts, empty, tuples, strs, p_list * 0.7, cl, p_unit) for _ in range(n)]]
 
     def aslist(self, t, tag=None):
-        if t[0] not in ('L', 'C'):
+        if t[0] not in ('L', 'C', 'M'):
             t = ['L', [t]]
         return [tag or t[0], t[1]]
 
     # -- case kinds ---------------------------------------------------------
     CONST = [0, 1, 2, 3, 5, 7, 220, 440, -1, -3]
-    OPCONST = [2, 3, 5, 7, 11, 40, 50, -2, -7]
+    OPCONST = [2, 3, 5, 7, 11, 40, 50, -2, -7, 0, 1, -1, 0, 1]     # 0, 1, -1: the _new1 shortcuts are modelled
 
     def ctor(self, empty=0.04):
         name = self.rng.choice(sorted(CTORS))
@@ -181,12 +190,14 @@ class Gen:
         arity = len(spec['defaults'])
         lo = 1 if spec['defaults'][0] is None else 0
         npos = self.rng.randint(lo, arity)
-        depth = self.rng.choice([1, 1, 2, 2, 3])
+        depth = self.rng.choice([0, 1, 1, 2, 2, 3, 4])
+        self.mylist = True
         args = [self.tree(pre, depth, self.CONST, empty=empty, strs=True) for _ in range(npos)]
         kwargs = {}
         for j in range(npos, arity):
             if self.rng.random() < 0.3:
                 kwargs[PARAMS[name][j]] = self.tree(pre, depth, self.CONST, empty=empty, strs=True)
+        self.mylist = False
         return {'kind': 'ctor', 'pre': pre, 'cls': name, 'rate': self.rng.choice(spec['rates']), 'args': args, 'kwargs': kwargs}
 
     def clbinop(self):
@@ -259,6 +270,10 @@ class Gen:
         d = self.rng.choice([0, 1, 1, 2])
         mul = self.tree(pre, d, self.OPCONST, empty=0.0, tuples=0.1, p_list=0.7)
         add = self.tree(pre, d, self.OPCONST, empty=0.0, tuples=0.1, p_list=0.5)
+        if kind == 'madd' and self.rng.random() < 0.15:
+            add = None                                  # default add=0.0
+            if self.rng.random() < 0.4:
+                mul = None                              # default mul=1.0
         return {'kind': kind, 'pre': pre, 'self': recv, 'mul': mul, 'add': add}
 
     def dup(self):
@@ -282,28 +297,77 @@ class Gen:
     def poll(self):
         pre = self.prelude(need_unit=True)
         recv = self.receiver(pre, self.rng.choice([1, 1, 2]), numbers=False)
-        trig = self.tree(pre, self.rng.choice([0, 0, 1]), [10, 4, 2], tuples=0.0, p_list=0.6, p_unit=0.4)
-        tid = self.tree(pre, self.rng.choice([0, 0, 1]), [-1, 3, 7], tuples=0.0, p_list=0.6, p_unit=0.0)
+        trig = self.tree(pre, self.rng.choice([0, 0, 1]), [10, 4, 2, 0], tuples=0.0, p_list=0.6, p_unit=0.4)
+        tid = self.tree(pre, self.rng.choice([0, 0, 1]), [-1, 3, 7, 0], tuples=0.0, p_list=0.6, p_unit=0.0)
         if self.rng.random() < 0.5:
             return {'kind': 'poll', 'pre': pre, 'self': recv, 'trig': trig, 'label': self.labels(len(recv[1])), 'tid': tid}
-        run = self.tree(pre, self.rng.choice([0, 0, 1]), [1, 2], tuples=0.0, p_list=0.6, p_unit=0.2)
+        run = self.tree(pre, self.rng.choice([0, 0, 1]), [1, 2, 0], tuples=0.0, p_list=0.6, p_unit=0.2)
         return {'kind': 'dpoll', 'pre': pre, 'self': recv, 'run': run, 'label': self.labels(len(recv[1])), 'tid': tid}
+
+    def narop(self):
+        # utils.list_narop with a NON-symmetric ternary operation on pure number trees
+        a = self.tree([], self.rng.choice([0, 1, 2, 3]), [1, 2, 3, 0, -4], empty=0.05, tuples=0.25, p_list=0.8, cl=0.0)
+        return {'kind': 'narop', 'pre': [], 'a': a, 'args': [['K', self.rng.choice([1, 2, 3])], ['K', self.rng.choice([4, 5, 6])]]}
+
+    def alias(self, case):
+        """class (4): the same argument OBJECT in two positions and/or the same objects used by two calls"""
+        r = self.rng.random()
+        if r < 0.12:
+            case['twice'] = True
+        elif r < 0.24:
+            k = case['kind']
+            pairs = {'clbinop': ('b', 'a'), 'madd': ('add', 'mul'), 'muladd_new': ('add', 'mul')}
+            if k == 'ctor' and len(case['args']) >= 2:
+                case['args'][-1] = case['args'][0]
+                case['share'] = True
+            elif k in pairs and case.get(pairs[k][1]) is not None and case.get(pairs[k][0]) is not None:
+                case[pairs[k][0]] = case[pairs[k][1]]
+                case['share'] = True
+            elif k == 'method' and len(case['args']) >= 2:
+                case['args'][1] = case['args'][0]
+                case['share'] = True
+            elif k in ('out_ar', 'out_kr') and case['output'][0] in ('L', 'C', 'M') and case['output'][1]:
+                case['output'] = [case['output'][0], case['output'][1] + [case['output'][1][0]]]
+                case['share'] = True
+            if case.get('share') and self.rng.random() < 0.3:
+                case['twice'] = True
+        return case
 
     def out(self):
         pre = self.prelude()
         rate = self.rng.choice(['out_ar', 'out_ar', 'out_ar', 'out_kr'])
         bus = self.tree(pre, 1, [0, 1, 2, 8], empty=0.0, tuples=0.0, p_list=0.25, p_unit=0.1)
-        output = self.tree(pre, self.rng.choice([1, 2, 2, 3]), [0, 0, 0, 1, 7, -1], empty=0.04, tuples=0.06, p_list=0.92)
+        self.mylist = True
+        output = self.tree(pre, self.rng.choice([0, 1, 2, 2, 3, 4]), [0, 0, 0, 1, 7, -1], empty=0.04, tuples=0.06, p_list=0.92)
+        self.mylist = False
         return {'kind': rate, 'pre': pre, 'cls': self.rng.choice(['Out', 'Out', 'ReplaceOut']), 'bus': bus, 'output': output}
 
 
 # ---------------------------------------------------------------------------
 # model call for a case
 
+BASES = None
+
+
+def bases():
+    return '(mkBases %s %s %s %s %s)' % (base('BinaryOpUGen/+'), base('BinaryOpUGen/-'), base('BinaryOpUGen/*'),
+                                         base('UnaryOpUGen/neg'), base('MulAdd'))
+
+
+BOP = {'+': 'OAdd', '-': 'OSub', '*': 'OMul'}
+
+
 def model_call(case):
+    m = model_call1(case)
+    if case.get('twice'):
+        return 'bind (%s) (fun _ => %s)' % (m, m)
+    return m
+
+
+def model_call1(case):
     k = case['kind']
     T = ctree
-    MA = '%s %s %s' % (base('MulAdd'), base('BinaryOpUGen/*'), base('BinaryOpUGen/+'))
+    BB = bases()
     if k == 'ctor':
         spec = CTORS[case['cls']]
         args = list(case['args'])
@@ -313,21 +377,23 @@ def model_call(case):
         return 'multi_new (new1_plain %s %d) [%s]' % (cid(case['cls'], RATE[case['rate']]), spec['nouts'], '; '.join(T(a) for a in args))
     if k in ('clbinop', 'clrbinop'):
         fn = 'cl_binop' if k == 'clbinop' else 'cl_rbinop'
-        return '%s %s %s %s %s' % (fn, base('BinaryOpUGen/' + case['op']), OPNUM[case['op']], T(case['a']), T(case['b']))
+        return '%s %s %s %s %s' % (fn, BB, BOP[case['op']], T(case['a']), T(case['b']))
     if k == 'clunop':
-        return 'cl_unop %s Z.opp %s' % (base('UnaryOpUGen/neg'), T(case['a']))
+        return 'cl_unop %s %s' % (BB, T(case['a']))
     if k == 'ugenbinop':
-        return 'ugen_binop %s %s %s' % (base('BinaryOpUGen/' + case['op']), T(case['a']), T(case['b']))
+        return 'ugen_binop %s %s %s %s' % (BB, BOP[case['op']], T(case['a']), T(case['b']))
     if k == 'ugenrbinop':
-        return 'ugen_rbinop %s %s %s' % (base('BinaryOpUGen/' + case['op']), T(case['a']), T(case['b']))
+        return 'ugen_rbinop %s %s %s %s' % (BB, BOP[case['op']], T(case['a']), T(case['b']))
     if k == 'method':
         cls, _, ctor = METHODS[case['meth']]
-        m = '(MRange %s)' % MA if ctor == 'MRange' else '(%s %s)' % (ctor, base(cls))
+        m = '(MRange %s)' % BB if ctor == 'MRange' else '(%s %s)' % (ctor, base(cls))
         return 'mc_perform %s [%s] [%s]' % (m, '; '.join(T(x) for x in case['self'][1]), '; '.join(T(a) for a in case['args']))
+    if k == 'narop':
+        return 'list_narop narop_fn %s [%s] KList' % (T(case['a']), '; '.join(T(a) for a in case['args']))
     if k == 'dup':
         return 'cl_dup [%s] %d' % ('; '.join(T(x) for x in case['self'][1]), case['n'])
     if k == 'sum':
-        return 'cl_sum %s [%s]' % (base('BinaryOpUGen/+'), '; '.join(T(x) for x in case['self'][1]))
+        return 'cl_sum %s [%s]' % (BB, '; '.join(T(x) for x in case['self'][1]))
     if k in ('poll', 'dpoll'):
         items = '; '.join(T(x) for x in case['self'][1])
         defl = '; '.join(T(['S', 'ChannelList UGen [%d]' % i]) for i in range(len(case['self'][1])))
@@ -336,9 +402,11 @@ def model_call(case):
                                                          T(case['label']), T(case['tid']), defl)
         return 'cl_dpoll %s [%s] %s %s %s [%s]' % (cid('Dpoll', 'demand'), items, T(case['label']), T(case['run']), T(case['tid']), defl)
     if k == 'madd':
-        return 'cl_madd %s [%s] %s %s' % (MA, '; '.join(T(x) for x in case['self'][1]), T(case['mul']), T(case['add']))
+        mul = case['mul'] if case.get('mul') is not None else ['K', 1]      # madd(mul=1.0, add=0.0)
+        add = case['add'] if case.get('add') is not None else ['K', 0]
+        return 'cl_madd %s [%s] %s %s' % (BB, '; '.join(T(x) for x in case['self'][1]), T(mul), T(add))
     if k == 'muladd_new':
-        return 'muladd_new %s %s %s %s' % (MA, T(case['self']), T(case['mul']), T(case['add']))
+        return 'muladd_new %s %s %s %s' % (BB, T(case['self']), T(case['mul']), T(case['add']))
     if k == 'out_ar':
         return 'out_ar %s %s %s %s' % (cid('DC', 'audio'), cid(case['cls'], 'audio'), T(case['bus']), T(case['output']))
     if k == 'out_kr':
@@ -355,6 +423,12 @@ def show(t):
         return str(t[1])
     if k == 'F':
         return '%s.0' % t[1]
+    if k == 'B':
+        return str(bool(t[1]))
+    if k == 'Z':
+        return '-0.0'
+    if k == 'M':
+        return 'MyList([' + ', '.join(show(x) for x in t[1]) + '])'
     if k == 'U':
         pan = t[1] < len(_SHOW_PRE) and _SHOW_PRE[t[1]] in ('pan', 'pank')
         return 'u%d' % t[1] + ('[%d]' % t[2] if pan else '')
@@ -393,12 +467,16 @@ def show_call(case):
         c = '%s.poll(%s, %s, %s)' % (show(case['self']), show(case['trig']), show(case['label']), show(case['tid']))
     elif k == 'dpoll':
         c = '%s.dpoll(%s, %s, %s)' % (show(case['self']), show(case['label']), show(case['run']), show(case['tid']))
+    elif k == 'narop':
+        c = 'utils.list_narop(lambda x, p, q: 100*x + 10*p + q, %s, %s)' % (show(case['a']), ', '.join(show(a) for a in case['args']))
     elif k == 'madd':
-        c = '%s.madd(%s, %s)' % (show(case['self']), show(case['mul']), show(case['add']))
+        c = '%s.madd(%s)' % (show(case['self']), ', '.join(show(case[q]) for q in ('mul', 'add') if case.get(q) is not None))
     elif k == 'muladd_new':
         c = 'MulAdd.new(%s, %s, %s)' % (show(case['self']), show(case['mul']), show(case['add']))
     else:
         c = '%s.%s(%s, %s)' % (case.get('cls', 'Out'), k[-2:], show(case['bus']), show(case['output']))
+    c += '   [same object for equal lists]' if case.get('share') else ''
+    c += '   [called twice with the same argument objects]' if case.get('twice') else ''
     return (pre + '; ' if pre else '') + c
 
 
@@ -410,6 +488,11 @@ Definition obs_units_eqb (a b : obs) : bool :=
   | ORes _ u, ORes _ u' => list_eqb unit_eqb u u'
   | OErr c, OErr d => Z.eqb c d
   | _, _ => false
+  end.
+Definition narop_fn (x : arg) (extra : list arg) : M arg :=
+  match x, extra with
+  | Scalar (K v), [Scalar (K p); Scalar (K q)] => ret (Scalar (K (100 * v + 10 * p + q)))
+  | _, _ => raise TypeError
   end.
 Definition agree (c : obs * obs * bool) : bool :=
   let '(o, e, units_only) := c in if units_only then obs_units_eqb o e else obs_eqb o e.
@@ -447,22 +530,24 @@ def gen_cases(ctx):
     corpus = os.path.join(fw.VERIF, 'corpus', 'C03_mce.json')
     if os.path.exists(corpus):
         cases += json.load(open(corpus))
+    A = g.alias
     for _ in range(n):
-        cases.append(g.ctor())
-        cases.append(g.ctor())
-        cases.append(g.clbinop())
-        cases.append(g.clrbinop())
-        cases.append(g.method())
-        cases.append(g.out())
+        cases.append(A(g.ctor()))
+        cases.append(A(g.ctor()))
+        cases.append(A(g.clbinop()))
+        cases.append(A(g.clrbinop()))
+        cases.append(A(g.method()))
+        cases.append(A(g.out()))
     for _ in range(n // 2):
-        cases.append(g.clunop())
-        cases.append(g.ugenbinop())
-        cases.append(g.ugenbinop(rev=True))
-        cases.append(g.madd())
-        cases.append(g.madd('muladd_new'))
-        cases.append(g.dup())
-        cases.append(g.sum())
-        cases.append(g.poll())
+        cases.append(A(g.clunop()))
+        cases.append(A(g.ugenbinop()))
+        cases.append(A(g.ugenbinop(rev=True)))
+        cases.append(A(g.madd()))
+        cases.append(A(g.madd('muladd_new')))
+        cases.append(A(g.dup()))
+        cases.append(A(g.sum()))
+        cases.append(A(g.poll()))
+        cases.append(g.narop())
     return cases
 
 
@@ -472,6 +557,73 @@ def size(t):
 
 def case_size(case):
     return len(json.dumps(case))
+
+
+def leaf_tags(t, acc):
+    """numeric leaves of a case tree -> {value: set of type tags}  (i int, f float, b bool, z -0.0)"""
+    if t is None:
+        return acc
+    k = t[0]
+    if k == 'K':
+        acc.setdefault(int(t[1]), set()).add('i')
+    elif k == 'F':
+        acc.setdefault(int(t[1]), set()).add('f')
+    elif k == 'B':
+        acc.setdefault(int(t[1]), set()).add('b')
+    elif k == 'Z':
+        acc.setdefault(0, set()).add('z')
+    elif k in ('T', 'L', 'C', 'M'):
+        for x in t[1]:
+            leaf_tags(x, acc)
+    return acc
+
+
+def impl_nums(t, out):
+    if t[0] == 'K':
+        out.append((t[1], t[2] if len(t) > 2 else '?'))
+    elif t[0] in ('T', 'L'):
+        for x in t[1]:
+            impl_nums(x, out)
+    return out
+
+
+def tag_violation(case, o):
+    """numbers are handed through unchanged: an int stays an int, 0.0 / -0.0 / False keep their type
+    (the model compares numbers by value; this is the exact, type-tagged comparison)"""
+    k = case['kind']
+    if o['err'] is not None:
+        return None
+    npre = len(case['pre'])
+    units = [u for u in o['units'][npre:] if u[0][0].split('/')[0] not in ('DC', 'Impulse')]
+    if k == 'ctor':
+        slots = list(case['args'])
+        for j in range(len(slots), len(PARAMS[case['cls']])):
+            slots.append(case.get('kwargs', {}).get(PARAMS[case['cls']][j]))
+        for u in units:
+            for j, x in enumerate(u[1]):
+                if j < len(slots) and slots[j] is not None:
+                    allowed = leaf_tags(slots[j], {})
+                    for v, tg in impl_nums(x, []):
+                        if tg not in allowed.get(v, ()):
+                            return 'argument %d: the number %s arrived as type tag %r, given %s' % (j, v, tg, sorted(allowed.get(v, ())))
+        return None
+    if k in ('out_ar', 'out_kr', 'poll', 'dpoll', 'dup') or (k == 'method' and case['meth'] != 'range'):
+        allowed = {}
+        for key in ('self', 'bus', 'output', 'trig', 'tid', 'run'):
+            if key in case:
+                leaf_tags(case[key], allowed)
+        for a in case.get('args', []) if k == 'method' else []:
+            leaf_tags(a, allowed)
+        nums = []
+        for u in units:
+            for x in u[1]:
+                impl_nums(x, nums)
+        if o['res'] is not None and k != 'out_ar' and k != 'out_kr':
+            impl_nums(o['res'], nums)
+        for v, tg in nums:
+            if tg not in allowed.get(v, ()):
+                return 'the number %s arrived as type tag %r, given %s' % (v, tg, sorted(allowed.get(v, ())))
+    return None
 
 
 def correspond(ctx):
@@ -498,13 +650,22 @@ def correspond(ctx):
                 exp = '(OErr 99)'
             else:
                 exp = '(ORes %s %s)' % (res, us)
-            if not units_only and o['res'][0] == 'L' and o['top'] != 'ChannelList':
+            if not units_only and k != 'narop' and o['res'][0] == 'L' and o['top'] != 'ChannelList':
                 direct_bad.append((idx, 'expanded result is a %s, not a ChannelList' % o['top']))
             created = len(o['units']) - len(case['pre'])
             c.count('result:ok')
             c.count('units_created:' + ('0' if created == 0 else '1' if created == 1 else '2-4' if created <= 4 else '5-16' if created <= 16 else '>16'))
             if (o['res'] and o['res'][0] == 'L') or created >= 2:
                 c.nontriv(case)
+        if o.get('mutated'):
+            direct_bad.append((idx, "the call changed the caller's argument lists in place"))
+            c.count('mutated-arguments')
+        tv = tag_violation(case, o)
+        if tv:
+            direct_bad.append((idx, tv))
+        for flag in ('share', 'twice'):
+            if case.get(flag):
+                c.count('aliasing:' + flag)
         items.append('(observe (%s) %s, %s, %s)' % (model_call(case), pre, exp, 'true' if units_only else 'false'))
     bad, errs = fw.check_shards(ctx, 'mce', HEADER, items, BODY, shard=120)
     c.evaluations = len(cases)
@@ -530,10 +691,17 @@ def correspond(ctx):
     c.samples = [{'call': show_call(k), 'impl_result': o['res'], 'impl_units_created': len(o['units']) - len(k['pre']), 'err': o['err']}
                  for k, o in list(zip(cases, out))[:8]]
     ctx.c03_cases = cases
+    # the model-free law probe also runs on every check (smaller sample; full size in search)
+    for f in law_probe(ctx, [], ctx.n(40, 400)):
+        c.failures.append(f)
     return c
 
 
 def search(ctx, failures):
+    return law_probe(ctx, failures, ctx.n(150, 1500))
+
+
+def law_probe(ctx, failures, n):
     """Probe the wrap-and-zip law directly on the implementation (no model involved):
     f(lists) must equal the channel list of f(element i of every list), with as many units."""
     g = Gen(ctx.rng)
@@ -545,7 +713,6 @@ def search(ctx, failures):
         k = (f.replay or {}).get('case')
         if k and probeable(k):
             cases.append(k)
-    n = ctx.n(150, 1500)
     for _ in range(n):
         cases.append(g.ctor(empty=0.0))
         cases.append(g.method())
